@@ -8,6 +8,32 @@ SIM_REAL = ["model3d, model2d, numerical, render3d, toolbox3d (all library code,
 SIM_SHIM = ["github.com/unixpickle/essentials concurrency.go (same goroutine structure + scheduling points; other files verbatim)"]
 
 PROPS = {
+    "C09": {
+        "race": False,
+        "hang_is_trouble": True,
+        "level": "exploration",
+        "budget_s": {"quick": 30, "thorough": 1200},
+        "max_cases": {"quick": 0, "thorough": 0},
+        "min_fields": ["tape", "sched"],
+        "zero_fields": ["tape", "sched"],
+        "rule": ("one case = one generated history from the choice tape. Mesh histories (3-D and 2-D): start from an empty mesh, a face soup or "
+                 "the output of a library in-place editor (MarchingCubesSearch, FlattenBase, EliminateEdges, DualContour with Repair, "
+                 "EliminateCoplanar/Decimate/EliminateColinear), then 3..42 operations from {Add new / duplicate pointer / value-equal copy / "
+                 "degenerate / previously removed, Remove present/absent/already removed, AddMesh, Copy (continue on or mutate the copy), DeepCopy, "
+                 "MapCoords (injective, many-to-one, sign-of-zero sensitive), Scale/Translate/Rotate, InvertNormals (+twice, 2-D Invert), a query "
+                 "that builds the lazy vertex index at that point, a burst of 2..5 simulated reader tasks}. After every operation the real mesh "
+                 "is compared with the plain list of current faces (count, Iterate, TriangleSlice, Contains, Min/Max) and, whenever the index "
+                 "exists, with a mesh freshly built from that list (VertexSlice, IterateVertices, Find, Neighbors, AllVertexNeighbors, "
+                 "diagnostics). Vertex pools contain hash-colliding pairs/triples (built with the exported fast hash) and +-0 variants. "
+                 "Map histories: each of the 12 coordinate/edge-keyed map types against an ordinary Go map, all pool keys re-read after every "
+                 "operation. distinct_nontrivial = distinct histories."),
+        "assumptions": [
+            "queries whose result order is unspecified are compared as sets; coordinates that are == count as one vertex (the sign of a zero is normalised)",
+            "a mesh freshly built from the current faces is the reference for index-backed queries (the property's own wording); derived-mesh operations have direct oracles",
+        ],
+        "components": {"real": ["model3d/mesh.go, mesh_ops.go, mc.go (mcSearch), dc.go (Repair), fast_maps.go, coords.go and their model2d twins"],
+                       "shim": SIM_SHIM, "stub": ["reference models: []*Triangle list, Go maps (harness code)"]},
+    },
     "C20": {
         "race": False,
         "hang_is_trouble": True,
